@@ -150,6 +150,16 @@ class TrioEventLoop(EventLoop):
             True if the scope was cancelled, False if it was cancelled already
             before invoking this function
         """
+        if self._nursery is None:
+            # Not running: the scope's state cannot be queried outside of the Trio event loop,
+            # and its task has not been started yet, so it is enough to forget the task.
+            for index, (_task, pending_scope, _args) in enumerate(self._pending_tasks):
+                if pending_scope is scope:
+                    del self._pending_tasks[index]
+                    scope.cancel()
+                    return True
+            return False
+
         existed = not scope.cancel_called
         scope.cancel()
         return existed
